@@ -113,6 +113,16 @@ def panic_rule(ctx, rep, rule, facts, root_pred, void_rules=(), only=None):
                 cands = by_suffix.get(s.key.split("|", 1)[1].split("#")[0], [])
                 if len(cands) == 1 and cands[0]["key"] not in used:
                     ent = cands[0]
+                else:
+                    # several functions have such a site on file: the one whose own site is gone (its body was inlined here) is meant
+                    free = [c_ for c_ in cands if c_["key"] not in used and c_["key"] not in present_keys]
+                    if len(free) > 1:
+                        allp = {g_.path for g_ in facts.fns} | {g_.path for g_ in getattr(facts, "orig", facts).fns}
+                        gone = [c_ for c_ in free if c_["key"].split("|")[0] not in allp]
+                        if len(gone) == 1:
+                            free = gone
+                    if len(free) == 1:
+                        ent = free[0]
             if ent is None:
                 # the site was re-spelled (named constant, conversion function instead of cast, temporaries): same function, same
                 # kind, and an operand signature that overlaps strongly with exactly one still unmatched reviewed entry
